@@ -251,6 +251,16 @@ func run(c *vt.Ctx, cs Case, scratch string) (dev *vt.Deviation, srcCounts, dstC
 	} else if !bytes.Equal(sum, want) {
 		dev = mk("digest", fmt.Sprintf("returned digest %x, digest of the source bytes %x", sum, want))
 		return
+	} else {
+		// the digest belongs to the caller: it is still the digest after the library has served other
+		// calls (directly on the base file systems: the plan's counters are not touched)
+		_, _ = avfs.HashFile(srcBase, srcPath, hasher("sha256"))
+		_ = avfs.CopyFile(dstBase, srcBase, dstPath+".aftermath", srcPath)
+		_ = dstBase.Remove(dstPath + ".aftermath")
+		if !bytes.Equal(sum, want) {
+			dev = mk("digest-overwritten", fmt.Sprintf("the returned digest was %x and reads %x after a later HashFile/CopyFile call: it shares memory with the library", want, sum))
+			return
+		}
 	}
 	if cs.Func == "HashFile" {
 		return
